@@ -43,10 +43,35 @@ func runJob(t *testing.T, job explore.Job) explore.Result {
 	}
 	sc := shscen.Scenario(cfg)
 	res := netctl.Run(t, sc, job)
-	for try := 0; res.Diverged && try < 2; try++ {
+	// A replayed prefix can diverge: the client picks the "any" broker of a
+	// lookup from a shuffled order that the explorer does not own. Each try
+	// reshuffles; an execution is a few milliseconds.
+	for try := 0; res.Diverged && try < 9; try++ {
 		res = netctl.Run(t, sc, job)
 	}
 	return res
+}
+
+var connRe = regexp.MustCompile(`:c/b\d+/\w+#\d+:`)
+
+// faultClass is the stable class of the faults of a job: fault labels without
+// connection names ("killbefore:Metadata+err:16:OffsetFetch"), "reorder" if
+// the deviations are reorderings only, "default" for the default order.
+func faultClass(kinds []string) string {
+	if len(kinds) == 0 {
+		return "default"
+	}
+	var fs []string
+	for _, k := range kinds {
+		if isFault(k) {
+			fs = append(fs, connRe.ReplaceAllString(k, ":"))
+		}
+	}
+	if len(fs) == 0 {
+		return "reorder"
+	}
+	sort.Strings(fs)
+	return strings.Join(fs, "+")
 }
 
 type tailBuf struct {
@@ -224,6 +249,9 @@ func plan(thorough bool) []task {
 						for _, m := range allModes {
 							for _, e := range envs {
 								add(shscen.Cfg{Kind: k.Name, NB: nb, Layout: l, Shape: s, Mode: m, Env: e}, b)
+								if b > 0 { // with faults, both treatments of a connection dying on its first request
+									add(shscen.Cfg{Kind: k.Name, NB: nb, Layout: l, Shape: s, Mode: m, Env: e, EOF: 1}, b)
+								}
 							}
 						}
 					}
@@ -434,7 +462,7 @@ func TestC23(t *testing.T) {
 			res.Viol = append(res.Viol, explore.Violation{Key: "worker-crash", What: res.Crash})
 		}
 		for _, v := range res.Viol {
-			key := "C23:" + tk.cfg.Kind + ":" + v.Key
+			key := "C23:" + tk.cfg.Kind + ":" + v.Key + ":" + faultClass(job.Kinds)
 			s.ViolationCount++
 			nviol++
 			if perKey[key]++; perKey[key] <= 3 {
